@@ -230,6 +230,8 @@ JOBS['C17'] = [
      'expect_reach': ['end'], 'timeout': {'quick': 280, 'thorough': 1700}},
     {'name': 'layout_reorder', 'harness': 'c17_ren.c', 'units': _ren_units, 'defs': {'quick': {'LL': 2}, 'thorough': {'LL': 3}},
      'variants': [{'ORDER': 1}, {'ORDER': 2}], 'expect_reach': ['end', 'reorder-path'], 'timeout': {'quick': 280, 'thorough': 1700}},
+    {'name': 'layout_ltr_runs_in_rtl', 'harness': 'c17_ren.c', 'units': _ren_units, 'defs': {'quick': {'LL': 3, 'ORDER': 2, 'RTLCTX': 1}, 'thorough': {'LL': 4, 'ORDER': 2, 'RTLCTX': 1}},
+     'expect_reach': ['end', 'reorder-path'], 'timeout': {'quick': 280, 'thorough': 1700}},
     {'name': 'width_tables', 'harness': 'c17_tab.c', 'units': [], 'defs': {}, 'expect_reach': ['end'], 'timeout': {'quick': 280, 'thorough': 1700}},
 ]
 META['C18'] = {
@@ -266,4 +268,20 @@ JOBS['C05'] = [
      'expect_reach': ['end'], 'timeout': {'quick': 280, 'thorough': 1700}},
     {'name': 'ex_limit', 'harness': 'c05_ex.c', 'units': 'ALL', 'defs': {'MODE': 1, 'BUF': 1},
      'expect_reach': ['end'], 'timeout': {'quick': 280, 'thorough': 1700}},
+]
+
+# ---------------------------------------------------------------- C19
+META['C19'] = {
+    'bounds': {'quick': 'all sequences of 2 commands from a 40-entry menu (j k G H L ^E ^Y ^D ^U ^F ^B z<CR> z. z- dd x o O p P J u ^R :d :1,3d :$ $ 0 3G 2dd yyP 5j w A :2 ^E^E Hdk Hck Ld2j Hjd2k) on buffers of 3 and 12 lines (and 12 lines with one long line) in a 6x20 window, and of 1 command on an empty buffer and in a 4x10 window; highlighting off',
+               'thorough': 'sequences of 3 commands on the 12-line buffers'},
+    'outside': 'order/RTL rendering on screen; highlighting on (the emulator ignores attributes; only A==B is meaningful there); multiple windows; lines with tabs or wide characters (the cell oracle is ASCII)',
+    'assumptions': ['the terminal is the VT100 subset of harness/vt.h (CUP, CUF/CUB, EL, IL, DL, DECSTBM, SGR ignored, CR, LF)', 'the editor state is observed between two commands through the environment hook that fires when the next key is read'],
+}
+JOBS['C19'] = [
+    {'name': 'screen', 'harness': 'c19_screen.c', 'units': 'ALL', 'defs': {'quick': {'N': 2}, 'thorough': {'N': 3}},
+     'variants': [{'BUF': 1}, {'BUF': 2}, {'BUF': 3}], 'expect_reach': ['end'], 'timeout': {'quick': 280, 'thorough': 3000}, 'max_steps': 60000000,
+     'validate': {'quick': 6, 'thorough': 12}},
+    {'name': 'screen_small', 'harness': 'c19_screen.c', 'units': 'ALL', 'defs': {'N': 1},
+     'variants': [{'BUF': 0}, {'BUF': 2, 'ROWS': 4, 'COLS': 10}, {'BUF': 3, 'ROWS': 4, 'COLS': 10}], 'expect_reach': ['end'],
+     'timeout': {'quick': 280, 'thorough': 1700}, 'max_steps': 60000000, 'validate': {'quick': 4, 'thorough': 8}},
 ]
